@@ -44,6 +44,12 @@ CHECKS = {
  "C13": ("exploration", "bounded-exhaustive enumeration of populations x state scripts x selections x return formats against brute-force aggregates of end_round snapshots",
          "Every multiset population of up to 3 (thorough: 3 complete, 4 restricted) scripted agents: Model.statistics() and run_scenarios for every selection of agents/states/properties/aggregate types in df, dict and json equal count/sum/min/max/mean over the snapshot, zero where a state was empty.",
          "Homogeneous property sets per type; snapshot taken in end_round is trusted.", "§4 C13"),
+ "C15": ("exploration", "complete enumeration of the live URL map x methods x credential shapes x instance ids x bodies x server states; status and a deep before/after snapshot",
+         "Every (rule, method) of app.url_map (enumerated at run time) x 15 judged credential shapes x {live, unknown, externalised-only} ids x {no, empty, valid} bodies x 4 server states (no instances, live session, locked session, externalised state on disk): non-public rules answer >= 400 and the deep snapshot (instances, session states, timestamps, scenario settings, state directory bytes) is unchanged.",
+         "Flask test client; `Basic <token>` and `Bearer <token> x` recorded but not judged; Flask's automatic OPTIONS reply checked for no state change only.", "§4 C15"),
+ "C17": ("model_checking", "explicit-state BFS over timed event sequences on a real BptkServer under a virtual clock, reference dict id -> (last access, timeout)",
+         "All sequences to depth 5 (thorough 6) of create(timeout unit) / begin-session / session-results / keep-alive / metrics / full-metrics / advance(eps, T/2, T-eps, T, T+eps) for pairs of instances covering every timeout unit, with and without a file adapter: available while younger than the timeout, gone (not counted, destroy() exactly once, id refused or restored from the adapter) after the next sweep trigger, timer restarted by every access.",
+         "Time reaches the server only through datetime.datetime.now() of its modules (shimmed); an expired instance accessed itself before any sweep is not judged; thorough adds a short real-time cross-check.", "§4 C17"),
  "C14": ("model_checking", "explicit-state BFS over operation histories on the real Model, dict reference compared on every transition",
          "All create/delete/configure/reset/set_state histories up to depth 5 (quick) / 7 (thorough) over two agent types; every registry query compared with a dict id->(type,state) after every transition.",
          "Agents created through factories whose name equals agent_type; ids offered to delete range over all ids ever issued (live and dead).", "§4 C14"),
